@@ -1975,6 +1975,13 @@ theorem lookup_mem {n : String} {rl : Rule} (h : g.lookup n = some rl) : rl ∈ 
 /-- the rule `nm` is referenced nowhere in `g` -/
 def Unreferenced (g : Grammar) (nm : String) : Prop := ∀ rl, rl ∈ g.rules → mentions nm rl.body = false
 
+/-- … decidably -/
+theorem unreferenced_of_all {g : Grammar} {nm : String}
+    (h : g.rules.all (fun rl => !mentions nm rl.body) = true) : Unreferenced g nm := by
+  intro rl hrl
+  have := List.all_eq_true.1 h rl hrl
+  simpa using this
+
 /-- expressions that do not mention `nm`, related to themselves -/
 def Away (nm : String) (x x' : Expr) : Prop := x = x' ∧ mentions nm x = false
 
@@ -2205,14 +2212,14 @@ theorem triviaTotal_of_progress (hf : g.fusedSkip = none)
 /-! ### helpers for concrete instances -/
 
 /-- a decidable sufficient condition for `NeverAt` -/
-theorem neverAt_of_all {c : CP} {rest : Str} (h : inp.all (fun d => d != c) = true) :
+theorem neverAt_of_all {c : CP} {rest : Str} (h : inp.toList.all (fun d => d != c) = true) :
     NeverAt inp (c :: rest) := by
   apply neverAt_of_head
   intro i hi
-  rw [Array.all_eq_true] at h
   obtain ⟨hlt, he⟩ := Array.getElem?_eq_some_iff.1 hi
-  have := h i hlt
-  simp [he] at this
+  have hm : c ∈ inp.toList := by rw [← he]; exact Array.mem_toList_iff.2 (Array.getElem_mem hlt)
+  have := List.all_eq_true.1 h c hm
+  simp at this
 
 /-- grammars given rule by rule -/
 theorem find_rel {Q : Expr → Expr → Prop} {rs rs' : List Rule} (n : String)
